@@ -53,6 +53,10 @@ def H(d):
     return ("h", tuple(sorted(d.items())))
 
 
+def T(s):
+    return ("t", tuple(sorted(s)))
+
+
 def hd(h):
     return dict(h[1])
 
@@ -74,12 +78,15 @@ OPS = {
     "hash-remove": ("h", "hk", lambda a, k: H({x: y for x, y in hd(a).items() if x != k})),
     "hash-union": ("h", "hh", lambda a, b: H({**hd(b), **hd(a)})),
     "hash-clear": ("h", "h", lambda a: H({})),
+    "hashset-insert": ("t", "tk", lambda a, k: T(set(a[1]) | {k})),
+    "hashset-clear": ("t", "t", lambda a: T(set())),
+    "hashset-length": ("i", "t", lambda a: len(a[1])),
     "car": ("i", "l", lambda a: (_need(len(a[1]) > 0 and isinstance(a[1][0], int)), a[1][0])[1]),
     "length": ("i", "l", lambda a: len(a[1])),
     "hash-length": ("i", "h", lambda a: len(a[1])),
     "+": ("i", "ii", lambda a, b: a + b),
 }
-UPDATES = [o for o, (r, a, _) in OPS.items() if r in "lvh"]
+UPDATES = [o for o, (r, a, _) in OPS.items() if r in "lvht"]
 
 
 class Gen:
@@ -90,6 +97,7 @@ class Gen:
         self.binds = []       # (name, text)
         self.helpers = {}     # name -> text
         self.n = 0
+        self.cur_op = None
 
     def fresh(self, p="x"):
         self.n += 1
@@ -106,13 +114,15 @@ class Gen:
 
     def seed(self):
         r = self.rng
-        k = r.choice("lvh")
+        k = r.choice("lvhht")
         n = r.randint(1, 4)
         xs = [r.randint(0, 9) for _ in range(n)]
         if k == "l":
             self.bind("l", L(xs), "(list %s)" % " ".join(map(str, xs)))
         elif k == "v":
             self.bind("v", V(xs), "(immutable-vector %s)" % " ".join(map(str, xs)))
+        elif k == "t":
+            self.bind("t", T(set(xs)), "(hashset %s)" % " ".join(map(str, xs)))
         else:
             d = {i: x for i, x in enumerate(xs)}
             self.bind("h", H(d), "(hash %s)" % " ".join("%d %d" % kv for kv in sorted(d.items())))
@@ -139,6 +149,11 @@ class Gen:
             x = r.randint(0, len(first[1]))
             return str(x), x
         cands = self.of_kind(kind)
+        if kind == "l" and self.cur_op in ("cdr", "rest"):
+            # im-lists keeps the removed cell of a uniquely held list inside the chunk (a hidden reference to its element):
+            # cdr / rest are applied to lists of integers only, so that the counts of the model are exact (the directed
+            # family `hidden_reference_programs` covers the other case)
+            cands = [v for v in cands if all(isinstance(x, int) for x in v[2][1])]
         _need(cands)
         v = r.choice(cands)
         return v[0], v[2]
@@ -147,6 +162,7 @@ class Gen:
         r = self.rng
         op = r.choice(UPDATES if r.random() < 0.8 else list(OPS))
         res, aks, sem = OPS[op]
+        self.cur_op = op
         texts, vals = [], []
         for j, ak in enumerate(aks):
             t, v = self.arg(ak, vals[0] if vals else None)
@@ -165,7 +181,7 @@ class Gen:
             params = ["a%d" % j for j in range(len(aks))]
             self.helpers[hn] = "(define (%s %s) (%s %s))" % (hn, " ".join(params), op, " ".join(params))
             text = "(%s %s)" % (hn, " ".join(texts))
-        elif via < 0.9 and aks[0] in "lvh" and len(aks) >= 2 and aks[-1] == "i":
+        elif via < 0.9 and aks[0] in "lvht" and len(aks) >= 2 and aks[-1] in "ik":
             # through a closure that captured the collection; it is called with the last operand
             g = self.fresh("g")
             self.binds.append((g, "(lambda (y) (%s %s y))" % (op, " ".join(texts[:-1]))))
@@ -179,6 +195,8 @@ class Gen:
                 inner, iv = "(immutable-vector-push %s 7)" % t0, V(v0[1] + (7,))
             elif aks[0] == "h":
                 inner, iv = "(hash-insert %s 9 7)" % t0, H({**hd(v0), 9: 7})
+            elif aks[0] == "t":
+                inner, iv = "(hashset-insert %s 7)" % t0, T(set(v0[1]) | {7})
             else:
                 inner, iv = t0, v0
             vals2 = [iv] + vals[1:]
@@ -222,7 +240,10 @@ class Gen:
         outs, vals = [], []
         for name, kind, val in self.vars:
             if r.random() < 0.55:
-                if kind == "h":
+                if kind == "t":
+                    outs.append("(hashset-length %s)" % name)
+                    vals.append(len(val[1]))
+                elif kind == "h":
                     d = hd(val)
                     if d and r.random() < 0.7:
                         k = r.choice(sorted(d))
@@ -236,7 +257,9 @@ class Gen:
                     vals.append(val)
         if not outs:
             name, kind, val = self.vars[-1]
-            if kind == "h":
+            if kind == "t":
+                outs, vals = ["(hashset-length %s)" % name], [len(val[1])]
+            elif kind == "h":
                 outs, vals = ["(hash-length %s)" % name], [len(val[1])]
             else:
                 outs, vals = [name], [val]
@@ -245,6 +268,22 @@ class Gen:
             body = "(let ((%s %s)) %s)" % (name, text, body)
         src = "\n".join(self.helpers.values()) + "\n(define (main) %s)\n(main)\n" % body
         return {"src": src, "expect": show(L(vals)), "ops": len(self.binds)}
+
+
+def hidden_reference_programs():
+    """directed: a collection stored in a list cell that `cdr` / `rest` removes from a uniquely held list.  im-lists does not
+    release the removed cell (the chunk keeps it), so the real count of the collection stays higher than the number of
+    visible references: the real VM copies where the model (which counts visible references) updates in place.  The safe
+    direction: real `unique` answers <= model in-place decisions; same value."""
+    out = []
+    for shrink in ("cdr", "rest"):
+        for mk, upd, exp in (("(immutable-vector 1 2)", "(immutable-vector-push v 3)", "#(1 2 3)"),
+                             ("(hashset 1 2)", "(hashset-length (hashset-insert v 3))", "3"),
+                             ("(hash 1 2)", "(hash-length (hash-insert v 3 4))", "2")):
+            src = ("(define (main) (let ((v %s)) (let ((l (list v 5))) (let ((t (%s l))) (list %s (car t))))))\n(main)\n"
+                   % (mk, shrink, upd))
+            out.append({"src": src, "expect": "(%s 5)" % exp, "ops": 3})
+    return out
 
 
 def gen_program(rng, nops):
